@@ -219,10 +219,12 @@ func TestC20(t *testing.T) {
 			}
 			shape := ewShape(rt)
 			c := &C20FMA{DT: d.Name, Eng: eng}
-			c.A = genOpnd(rt, shape, rapid.SampledFrom(c06LayoutKinds).Draw(rt, "la"), -4, 6, 0, "a")
-			c.Y = genOpnd(rt, shape, rapid.SampledFrom([]string{"contig", "leadsliced", "lazyT", "sliced", "physT", "stepsliced"}).Draw(rt, "ly"), -4, 6, 0, "y")
+			// column-major operands take part too (each independently), and awkward values (non-finite, extremes)
+			la := append(append([]string{}, c06LayoutKinds...), "cmraw", "cmraw")
+			c.A = genOpnd(rt, shape, rapid.SampledFrom(la).Draw(rt, "la"), -4, 6, 12, "a")
+			c.Y = genOpnd(rt, shape, rapid.SampledFrom([]string{"contig", "leadsliced", "lazyT", "sliced", "physT", "stepsliced", "cmraw"}).Draw(rt, "ly"), -4, 6, 12, "y")
 			if rapid.Bool().Draw(rt, "tensorx") {
-				x := genOpnd(rt, shape, rapid.SampledFrom(c06LayoutKinds).Draw(rt, "lx"), -4, 6, 0, "x")
+				x := genOpnd(rt, shape, rapid.SampledFrom(la).Draw(rt, "lx"), -4, 6, 12, "x")
 				c.X = &x
 			} else {
 				c.Scalar = rapid.Int64Range(-3, 4).Draw(rt, "s")
